@@ -99,7 +99,7 @@ fn any_probe() -> ([u8; 3], usize) {
     (p, l)
 }
 
-// @ob props=C01,C08,C07 tier=quick cap=240 fns=PageNode::index,Page::leaf_elements,LeafElement::key bound="leaf page, 0..=3 sorted 2-byte keys, probe of 0..=3 bytes" unwind=5
+// @ob props=C01,C08 tier=quick cap=240 fns=PageNode::index,Page::leaf_elements,LeafElement::key bound="leaf page, 0..=3 sorted 2-byte keys, probe of 0..=3 bytes" unwind=5
 #[kani::proof]
 #[kani::unwind(5)]
 fn index_leaf_page() {
@@ -120,7 +120,7 @@ fn index_leaf_page() {
     kani::cover!(n == 0);
 }
 
-// @ob props=C01,C08,C07 tier=quick cap=240 fns=PageNode::index,PageNode::index_page,Page::branch_elements,BranchElement::key bound="branch page, 1..=3 sorted 2-byte keys, probe of 0..=3 bytes" unwind=5
+// @ob props=C01,C08 tier=quick cap=240 fns=PageNode::index,PageNode::index_page,Page::branch_elements,BranchElement::key bound="branch page, 1..=3 sorted 2-byte keys, probe of 0..=3 bytes" unwind=5
 #[kani::proof]
 #[kani::unwind(5)]
 fn index_branch_page() {
@@ -142,7 +142,7 @@ fn index_branch_page() {
     kani::cover!(!got.1 && got.0 == 2);
 }
 
-// @ob props=C01,C08,C07 tier=quick cap=300 fns=PageNode::index,PageNode::val,PageNode::len bound="materialised leaf node, exactly 3 sorted symbolic 2-byte keys, probe of 0..=3 bytes" unwind=5
+// @ob props=C01,C08 tier=quick cap=300 fns=PageNode::index,PageNode::val,PageNode::len bound="materialised leaf node, exactly 3 sorted symbolic 2-byte keys, probe of 0..=3 bytes" unwind=5
 #[kani::proof]
 #[kani::unwind(5)]
 fn index_leaf_node() {
@@ -174,7 +174,7 @@ fn index_leaf_node() {
     std::mem::forget(pn);
 }
 
-// @ob props=C01,C08,C07 tier=quick cap=300 fns=PageNode::index,PageNode::index_page bound="materialised branch node, exactly 3 sorted symbolic 2-byte keys, probe of 0..=3 bytes" unwind=5
+// @ob props=C01,C08 tier=quick cap=300 fns=PageNode::index,PageNode::index_page bound="materialised branch node, exactly 3 sorted symbolic 2-byte keys, probe of 0..=3 bytes" unwind=5
 #[kani::proof]
 #[kani::unwind(5)]
 fn index_branch_node() {
@@ -199,7 +199,7 @@ fn index_branch_node() {
 
 // ---- keys of DIFFERENT lengths, including the EMPTY key and a key that is a strict prefix of its successor
 //      (jammdb accepts the empty key; binary search must find it like any other)
-// @ob props=C01,C08,C07 tier=quick cap=300 fns=PageNode::index,Page::leaf_elements,LeafElement::key bound="leaf page with 3 keys of 0, 1 and 2 bytes (sorted, symbolic; the 1-byte key may be a prefix of the 2-byte key), probe of 0..=3 bytes" unwind=5
+// @ob props=C01,C08 tier=quick cap=300 fns=PageNode::index,Page::leaf_elements,LeafElement::key bound="leaf page with 3 keys of 0, 1 and 2 bytes (sorted, symbolic; the 1-byte key may be a prefix of the 2-byte key), probe of 0..=3 bytes" unwind=5
 #[kani::proof]
 #[kani::unwind(5)]
 fn index_leaf_page_varlen_keys() {
